@@ -17,18 +17,18 @@ PROP = Prop(
     assumptions=["partition counts are non-negative; owned/prior partitions are non-negative int32 (negative claims are not generated)",
                  "topic and member names are ASCII (Go byte order = Lean string order)",
                  "members with the same static instance id are unordered for Go's unstable sort: the model output is not compared there, only the Spec"],
-    partial="kfake assignUniform validity holds only for disjoint prior targets (kfakeUniform_valid_partial); the full statement is refuted "
-            "(kfakeUniform_conflicting_priors_invalid; reachable over the wire, see harness/cmd/c25/reachprobe). Sticky / cooperative-sticky engine "
-            "validity is checked on outputs, not proved; the engine fails it when a subscription lists a topic twice (finding sticky-duplicate-subscription).",
+    partial="Sticky / cooperative-sticky engine validity is checked on outputs, not proved (the engine is not modelled).",
 )
 MANIFEST = {
-    "text": "Lean theorems, for groups of any size: the models of range (with rack phase), round-robin, kfake assignRange and kfake assignUniform "
-            "(the latter under disjoint prior targets) return a plan in which every partition of every subscribed topic is assigned exactly once, to a "
-            "subscriber, and nothing else; AdjustCooperative applied to any valid plan leaves a partition unassigned only when a current owner is "
-            "losing it. The models are tied to the code by exact differential runs (public GroupBalancer/ConsumerBalancer interfaces; kfake via a "
-            "verif hook). Sticky and cooperative-sticky validity itself is checked on the real engine's output for every generated input, not proved.",
+    "text": "Lean theorems, for groups of any size and every input: the models of range (with rack phase), round-robin, kfake assignRange and kfake "
+            "assignUniform (arbitrary prior targets, conflicting claims included) return a plan in which every partition of every subscribed topic is "
+            "assigned exactly once, to a subscriber, and nothing else; AdjustCooperative applied to any valid plan leaves a partition unassigned only when "
+            "a current owner is losing it. The models are tied to the code by exact differential runs (public GroupBalancer/ConsumerBalancer interfaces; "
+            "kfake via a verif hook). Sticky and cooperative-sticky validity itself is checked on the real engine's output for every generated input "
+            "(subscriptions listing a topic twice included), not proved.",
     "note": "Trusted: Lean kernel; the hand-written models (validated differentially, not verified against the Go source); generators. "
-            "Not proved: internal/sticky. Findings: kfake assignUniform double-assigns on conflicting prior targets (full statement refuted in Props, input "
-            "reachable through static leave/rejoin); the sticky engine assigns to a non-subscriber when some subscription lists a topic twice.",
+            "Not proved: internal/sticky. Two defects found by this check were repaired in /repo (31831e3 kfake assignUniform double-assigned on conflicting "
+            "prior targets; 67aaac1 a topic listed twice in a subscription made sticky assign to a non-subscriber); their witnesses run first from "
+            "corpus/C25 and their stable keys (kfake-uniform-conflicting-priors, sticky-duplicate-subscription) are kept in the driver.",
     "technique": "Lean 4 proof (induction over members/topics/partitions) with differential correspondence and output-checked Spec for the unmodelled sticky engine",
 }
